@@ -3,12 +3,13 @@
 CONSTANTS
   N = 2
   NI = 2
+  NK = 2
   MaxClock = 3
   Retention = 0
   T = 1
   MaxCas = 8
   MaxFaults = 4
-  LiveStates = {"ACTIVE", "LEAVING"}
+  LiveStates = {"ACTIVE", "LEAVING", "PENDING"}
   WatchNodes = {1, 2}
   HoldNodes = {1, 2}
   AllowRestart = TRUE
@@ -18,6 +19,7 @@ CONSTANTS
   GateNodes = {1, 2}
   InboxCap = 2
   VersionTest = TRUE
+  KeyTest = TRUE
   MaxDel = 0
   ObsoleteTimeout = 1
   ConsumeNet = FALSE
